@@ -66,7 +66,8 @@ def radius_modes(labels):
 def scenarios(tier, seed):
     out = []
     lats = alphabets.lattices(tier, seed)
-    sets = [('S3', lab) for lab in alphabets.LABELS[3]] + [('S4', alphabets.LABELS[4][1])]
+    # ('Li1', 'Li10', 'Li1'): one label is a prefix of the other and has the larger radius in the dict-different mode
+    sets = [('S3', lab) for lab in alphabets.LABELS[3]] + [('S3', ('Li1', 'Li10', 'Li1'))] + [('S4', alphabets.LABELS[4][1])]
     if tier == 'thorough':
         sets += [('S4', lab) for lab in (alphabets.LABELS[4][0], alphabets.LABELS[4][2])] + [('S2', lab) for lab in alphabets.LABELS[2]]
     for (lname, M), (sname, labels) in itertools.product(lats, sets):
@@ -155,7 +156,11 @@ def eval_scenario(sc, res: Result | None = None):
         Ms = (M * 1.03) @ geom.rotation((12.0, 31.0, 47.0)).T
     else:
         Ms = M
-    sites = concretise.make_sites(site_frac, labels, Ms)
+    site_given = site_frac
+    if sc.get('skip', -1) in (-1, 1) and sc['layout'] == 0 and sc['f'] != 0.9:
+        # the same sites written in other cells (fractional coordinates outside [0,1) are legitimate)
+        site_given = site_frac + np.array([[-1, 0, 2], [1, -1, 0], [0, 2, -1], [2, 1, 1]])[: len(site_frac)]
+    sites = concretise.make_sites(site_given, labels, Ms)
     f = sc['f']
     try:
         tr = traj.transitions_between_sites(sites, 'Li', site_radius=spec, site_inner_fraction=f)
